@@ -26,6 +26,8 @@ pub struct HookState {
     pub max_level: u32,
     pub entries: u64,
     pub probe: bool,
+    /// pre-order trace of frame entries (`B`/`I`/`S` + level) and exits (`x`), when enabled
+    pub trace: Option<String>,
     pub log: Vec<ProbeRecord>,
     pub mismatches: Vec<ProbeRecord>,
 }
@@ -38,6 +40,10 @@ pub fn reset(probe: bool) {
     STATE.with(|s| { *s.borrow_mut() = HookState { probe, ..HookState::default() }; });
 }
 
+pub fn enable_trace() {
+    STATE.with(|s| { s.borrow_mut().trace = Some(String::new()); });
+}
+
 pub fn take() -> HookState {
     STATE.with(|s| std::mem::take(&mut *s.borrow_mut()))
 }
@@ -48,9 +54,12 @@ pub fn probe_enabled() -> bool {
 
 pub struct Frame;
 impl Frame {
-    pub fn enter(level: u32) -> Frame {
+    pub fn enter(kind: char, level: u32) -> Frame {
         STATE.with(|s| {
             let mut s = s.borrow_mut();
+            if let Some(t) = s.trace.as_mut() {
+                if t.len() < 2_000_000 { if !t.is_empty() { t.push(','); } t.push(kind); t.push_str(&level.to_string()); }
+            }
             s.depth += 1;
             s.entries += 1;
             if s.depth > s.max_depth { s.max_depth = s.depth; }
@@ -61,7 +70,11 @@ impl Frame {
 }
 impl Drop for Frame {
     fn drop(&mut self) {
-        STATE.with(|s| { let mut s = s.borrow_mut(); s.depth = s.depth.saturating_sub(1); });
+        STATE.with(|s| {
+            let mut s = s.borrow_mut();
+            s.depth = s.depth.saturating_sub(1);
+            if let Some(t) = s.trace.as_mut() { if t.len() < 2_000_000 { t.push_str(",x"); } }
+        });
     }
 }
 
